@@ -7,6 +7,36 @@ package compiler
 /*@
 // package-level IR constants / runtime function handles: assigned once during set-up, never afterwards
 immutable g:compiler.zero g:compiler.ddp_runtime_error_irfun g:compiler.ddpint
+// the AST is not rewritten during code generation
+immutable ast.BinaryExpr ast.Indexing
+
+// the only function whose call means "Laufzeitfehler"
+axiom rtfn_is_the_runtime_error_function: forall v value.Value :: ir.isRuntimeErrorFn(v) <==> v == ddp_runtime_error_irfun
+
+// TRUSTED accessors of the IR type descriptors (each returns a stored field)
+func (ddpIrType).IsPrimitive
+  pure
+  trusted
+func (ddpIrType).IrType
+  pure
+  trusted
+func (ddpIrType).Name
+  pure
+  trusted
+func (ddpIrType).DeepCopyFunc
+  pure
+  trusted
+  ensures result != ddp_runtime_error_irfun
+func (ddpIrType).FreeFunc
+  pure
+  trusted
+  ensures result != ddp_runtime_error_irfun
+
+// TRUSTED frame: recording a temporary only appends to the scope's list
+func (*scope).addTemporary
+  trusted
+  modifies compiler.scope
+  ensures result0 == val && result1 == typ
 
 // err panics with a CompilerError ("Unerwarteter Fehler")
 func (*compiler).err
@@ -32,7 +62,6 @@ func (*compiler).loadStructField
 func (*compiler).evaluateAssignableOrReference [C06]
   at L1 before call createIfElse
   assume ir.den(zero) == bv64(0)
-  assume ir.isRuntimeErrorFn(ddp_runtime_error_irfun)
   ensures [C06] reached(L1) && bvsge(fieldDen(lhs, list_len_field_index), bv64(0)) ==>
             ($rterr == (at(L1, $rterr) ||
                (at(L1, c.cbb.$guard) &&
@@ -45,5 +74,23 @@ func (*compiler).evaluateAssignableOrReference [C06]
   // after the check, code continues only on the in-range path
   ensures [C06] reached(L1) && bvsge(fieldDen(lhs, list_len_field_index), bv64(0)) ==>
             (c.cbb.$guard == (at(L1, c.cbb.$guard) &&
+                (bvsle(bv64(1), bvadd(ir.den(index), bv64(1))) && bvsle(bvadd(ir.den(index), bv64(1)), fieldDen(lhs, list_len_field_index)))))
+
+// ---- C06: the index check emitted for reading a list element (lhs an der Stelle rhs) ----
+func (*compiler).VisitBinaryExpr [C06]
+  requires e != nil && e.Operator == ast.BIN_INDEX && e.OverloadedBy == nil
+  at L2 before call createIfElse
+  assume ir.den(zero) == bv64(0)
+  ensures [C06] reached(L2) && bvsge(fieldDen(lhs, list_len_field_index), bv64(0)) ==>
+            ($rterr == (at(L2, $rterr) ||
+               (at(L2, c.cbb.$guard) &&
+                !(bvsle(bv64(1), bvadd(ir.den(index), bv64(1))) && bvsle(bvadd(ir.den(index), bv64(1)), fieldDen(lhs, list_len_field_index))))))
+  ensures [C06] reached(L2) && bvsge(fieldDen(lhs, list_len_field_index), bv64(0)) ==>
+            ($gepGuard == (at(L2, c.cbb.$guard) &&
+                (bvsle(bv64(1), bvadd(ir.den(index), bv64(1))) && bvsle(bvadd(ir.den(index), bv64(1)), fieldDen(lhs, list_len_field_index)))))
+  ensures [C06] reached(L2) && bvsge(fieldDen(lhs, list_len_field_index), bv64(0)) && $gepGuard ==>
+            ($gepIdx == ir.den(index) && bvsle(bv64(0), $gepIdx) && bvslt($gepIdx, fieldDen(lhs, list_len_field_index)))
+  ensures [C06] reached(L2) && bvsge(fieldDen(lhs, list_len_field_index), bv64(0)) ==>
+            (c.cbb.$guard == (at(L2, c.cbb.$guard) &&
                 (bvsle(bv64(1), bvadd(ir.den(index), bv64(1))) && bvsle(bvadd(ir.den(index), bv64(1)), fieldDen(lhs, list_len_field_index)))))
 @*/
